@@ -80,7 +80,8 @@ add("C12",
     "13-clause protocol invariant holds in every reachable state; no reachable state is stuck (deadlock freedom); in the final "
     "state no AGE_UPDATE message is pending and no EXIT_NOTIFICATION anywhere (clean exit, so the next call starts clean); the "
     "island ages sum to at least n*(generational_age + num_steps); every reported or in-flight age is a lower bound of the "
-    "sender's age. PARTIAL: liveness under fair non-flooding schedules is not proved (progress only). Tie: the real "
+    "sender's age; from EVERY reachable state some continuation lets every rank return (lexicographic measure, no trap). "
+    "PARTIAL: termination under EVERY fair schedule that satisfies the pacing premise is not proved. Tie: the real "
     "ParallelArchipelago (real Island, hall of fame, migration, closing collectives) runs on a deterministic stand-in for mpi4py "
     "(tools/vendor/mpi4py: threads + choice-driven scheduler, buffered isend); the call sequence of every non-blocking call is "
     "replayed through the model (same calls in the same order, same final ages, empty mailboxes); oracle on the real run: no "
